@@ -80,36 +80,57 @@ func zzNodeOf(e []byte) (custodian, payee Address) {
 }
 
 func zzVerified(key crypto.Key, msg crypto.Hash, sig crypto.Signature) bool {
+	ok := false
 	for _, c := range crypto.ZZVerifyLog {
-		if !c.Agg && len(c.Keys) == 1 && c.Keys[0] == key && c.Msg == msg && c.Sigs[0] == sig && c.Result {
-			return true
+		if c.Agg || len(c.Keys) != 1 {
+			continue
 		}
+		// (no short-circuit operators: one term, no path fork per log entry)
+		ok = vr.Or(ok, vr.And(vr.And(c.Keys[0] == key, c.Msg == msg), vr.And(c.Sigs[0] == sig, c.Result)))
 	}
-	return false
+	return ok
 }
 
-// ZZ_C34: a custodian update of 7 entries (the code's minimum), two of them arbitrary byte
-// strings at arbitrary positions, the other five fixed and well formed; arbitrary new
+// ZZ_C34: a custodian update of 7 entries (the code's minimum), one (quick) or two (thorough)
+// of them arbitrary byte strings at several positions, the others fixed and well formed; arbitrary new
 // custodian, approval signature, amount and previous custodian state.
 func ZZ_C34() {
 	const n = 7
 	entries := make([][]byte, n)
 	// positions of the two symbolic entries
 	var si, sj int
-	switch vr.Choose(0, 3) {
-	case 0:
-		si, sj = 0, 1
-	case 1:
-		si, sj = 2, 5
-	case 2:
-		si, sj = 5, 6
-	default:
-		si, sj = 0, 6
+	if vr.Tier() == 0 {
+		// quick tier: one arbitrary entry (first, middle or last), six fixed
+		sj = -1
+		switch vr.Choose(0, 2) {
+		case 0:
+			si = 0
+		case 1:
+			si = 3
+		default:
+			si = 6
+		}
+	} else {
+		switch vr.Choose(0, 3) {
+		case 0:
+			si, sj = 0, 1
+		case 1:
+			si, sj = 2, 5
+		case 2:
+			si, sj = 5, 6
+		default:
+			si, sj = 0, 6
+		}
 	}
 	tag := byte(0x10)
 	for i := range entries {
 		if i == si || i == sj {
 			entries[i] = vr.Bytes(custodianNodeExtraSize)
+			// the two view keys are fixed distinct constants: they are only ever inserted into the
+			// uniqueness map, and a symbolic map key forks on aliasing with each of ~25 others
+			fixed := zzConcreteNodeExtra(tag + 8)
+			copy(entries[i][33:65], fixed[33:65])
+			copy(entries[i][97:129], fixed[97:129])
 		} else {
 			entries[i] = zzConcreteNodeExtra(tag)
 		}
